@@ -282,6 +282,11 @@ class Weaver:
         # D3
         for v in it["vis"]:
             ed.replace(v[0], v[1], "pub", "D3")
+        # D1c: `<x>_span!(..).in_scope(|| BODY)` -> `BODY` (tracing::Span::in_scope runs the closure inside the span and returns its
+        # value; the span itself is logging). Done as two deletions around BODY so edits inside BODY still apply.
+        for ss in it.get("span_scopes", []):
+            ed.replace(ss["span"][0], ss["body"][0], "", "D1c")
+            ed.replace(ss["body"][1], ss["span"][1], "", "D1c")
         # D1b: a `for` loop over a shared-borrow iterator (`x.iter()` / `.keys()` / `.values()`) whose body consists solely of dropped
         # tracing macros is dropped as a whole: logging only
         for lp in it.get("loops", []):
